@@ -426,8 +426,8 @@ def rule_POSW(ctx):
             kind = classify_pos_write(f, st, stmt)
             if kind in GOOD_KINDS:
                 r.ok(f'{f.key}:{norm(stmt)}', {'instance': f.key, 'write': norm(stmt)[:60], 'kind': kind})
-            elif (ctx.rk(f.key), kind) in WRITE_REASONS:
-                r.ok(f'{f.key}:{norm(stmt)}', reason=True, sample={'instance': f.key, 'write': norm(stmt)[:60], 'reason': WRITE_REASONS[(ctx.rk(f.key), kind)]})
+            elif ctx.reason_key(WRITE_REASONS, f.key, kind) is not None:
+                r.ok(f'{f.key}:{norm(stmt)}', reason=True, sample={'instance': f.key, 'write': norm(stmt)[:60], 'reason': WRITE_REASONS[ctx.reason_key(WRITE_REASONS, f.key, kind)]})
             else:
                 msg = {
                     'half-validated': 'the assigned position is checked against only one of the bounds 0 and len',
